@@ -48,7 +48,11 @@ def make(prop, quick, thorough, explanation, functions, outside, extra_bounds=No
             'explanation': explanation,
             'units': units,
             'functions': functions,
-            'bounds': dict({'scenarios': {n: {'threads': sc.threads, 'rounds_R': sc.R, 'unroll': sc.unroll} for n, sc in S.items()},
+            'bounds': dict({'scenarios': {n: dict({'threads': sc.threads, 'rounds_R': sc.R, 'unroll': sc.unroll},
+                                                 **({'pruned (schedules reaching these calls are outside the bound, assumed away - not asserted)':
+                                                     list(sc.cfg_extra.get('prune_fns', [])) + ['%s -> %s' % tuple(c) for c in sc.cfg_extra.get('prune_calls', [])]}
+                                                    if (sc.cfg_extra.get('prune_fns') or sc.cfg_extra.get('prune_calls')) else {}))
+                                         for n, sc in S.items()},
                             'meaning of R': 'each thread gets at most R contexts (round-robin rounds; a slot may be skipped): every schedule with at most R-1 pre-emptions per thread in round-robin order; '
                                             'a loop back-edge beyond the unroll factor ends the context',
                             'heap': 'one waiter record per thread (+1), objects per scenario as configured', 'recursion depth': 3}, **(extra_bounds or {})),
